@@ -132,7 +132,7 @@ func (c *defaultClient) PinPath(ctx context.Context, path string, opts api.PinOp
 		"POST",
 		fmt.Sprintf(
 			"/pins%s?%s",
-			ipfspath.String(),
+			(&url.URL{Path: ipfspath.String()}).EscapedPath(),
 			query,
 		),
 		nil,
@@ -155,7 +155,7 @@ func (c *defaultClient) UnpinPath(ctx context.Context, p string) (*api.Pin, erro
 		return nil, err
 	}
 
-	err = c.do(ctx, "DELETE", fmt.Sprintf("/pins%s", ipfspath.String()), nil, nil, &pin)
+	err = c.do(ctx, "DELETE", fmt.Sprintf("/pins%s", (&url.URL{Path: ipfspath.String()}).EscapedPath()), nil, nil, &pin)
 	return &pin, err
 }
 
